@@ -31,6 +31,7 @@ deriving DecidableEq, Repr, Inhabited
 
 inductive LexErr where
   | newlineInString | unterminatedString | unterminatedComment | invalidNumeric | outOfRange | invalidToken
+  | fuel   -- the model's own bound on re-entries was exhausted (never happens: `C18_lexer_total`)
 deriving DecidableEq, Repr
 
 def ch (c : Char) : Int := c.toNat
@@ -121,7 +122,7 @@ def lexNumber (s : Stream) : Except LexErr (Tok × Stream) :=
 
 /-- `lexer::next()`; the fuel bounds the re-entries after white space and comments -/
 def nextTok : Nat → Stream → Except LexErr (Tok × Stream)
-  | 0, _ => .error .invalidToken
+  | 0, _ => .error .fuel
   | fuel + 1, s =>
     match s with
     | [] => .ok (.sym .EOF, [])
@@ -180,7 +181,7 @@ def nextTok : Nat → Stream → Except LexErr (Tok × Stream)
 
 /-- the token stream up to and including `EOF`, as the parser pulls it -/
 def lexAll : Nat → Stream → Except LexErr (List Tok)
-  | 0, _ => .error .invalidToken
+  | 0, _ => .error .fuel
   | fuel + 1, s =>
     match nextTok (s.length + 2) s with
     | .error e => .error e
